@@ -575,6 +575,9 @@ def run_job(job):
             res["switches"] += r.get("switches", 0)
             if r.get("switches", 0) > 0:
                 res["distinct"].append(f"{index}:{r.get('trace_hash')}:{sc.get('fault')}")
+            res.setdefault("trace", []).append((res["runs"], r.get("status"), r.get("steps", 0),
+                                                r.get("trace_hash"), tuple(r.get("sys_fired", [])),
+                                                tuple(sorted(r.get("sys_counts", {}).items()))))
             fk = sc["fault"].split("@")[0] if sc["fault"] else ("fsize" if sc.get("fsize") else "none")
             if sc.get("sysfault"):
                 fk = "sys_" + sc["sysfault"].split("#")[0]
